@@ -1,8 +1,1088 @@
-//! C11 — not built yet.
+//! C11 — batch encoding is a ring isomorphism; the Galois action is the documented rotation.
+//!
+//! Independent definition of the slots (nothing of the library's NTT / index map is reused):
+//!   psi   = context.first_context_data().plain_ntt_tables().root()   (checked: psi^N = -1 mod t; minimal for t < 2^21)
+//!   r_i       = psi^( 3^i mod 2N)   slot i of row 0   (i < N/2)
+//!   r_{N/2+i} = psi^(-3^i mod 2N)   slot i of row 1
+//!   decode(m)[i] = m(r_i)  (Horner, O(N) per slot);  encode(val * e_j)[k] = val * N^-1 * r_j^-k  (Lagrange basis, closed form)
+//!
+//! E1 sections (case = one parameter set, the check loops over the stated alphabet inside):
+//!  * `slots`       N unit vectors x {1,t-1} (closed form), N monomials x {1,t-1} (decode), generic/extreme vectors (naive evaluation)
+//!  * `lengths`     every input length 0..N of a generic vector (zero padding, dirty destination), too-long inputs refused
+//!  * `exhaustive`  ALL t^N vectors for (2,5), (2,13), (4,17); all pairs (sum, product) for the first two
+//!  * `ring`        sum / product modulo (X^N+1, t) (naive) of all pairs of unit vectors x {1,t-1}^2 (N <= 32) + generic/extreme pairs
+//!  * `galois`      every step s in -(N/2-1)..N/2-1, the column swap, every odd element 1..2N-1, get_elts_all
+//!  * `polynomial`  encode_polynomial / decode_polynomial: {0,1,t-1,t,t+1,2^64-1} at every position, lengths 0..N, too-long refused
+
 use crate::engine::*;
+use crate::he::*;
+use crate::refmodel::bigu::{add_mod, inv_mod_u64, is_prime_u64, mul_mod, pow_mod, primes_1_mod};
+use crate::refmodel::poly::{bit_reverse, min_primitive_root_2n, pad, padd, peval, pgalois, pmul};
+use heathcliff::*;
+use serde::{Deserialize, Serialize};
+use std::sync::Arc;
+use std::time::Duration;
 
-pub fn describe(_rep: &Report) {}
+pub fn describe(rep: &Report) {
+    rep.set_rule(
+        "case = (scheme in {BFV,BGV}, N = 2^k, plain modulus t, two 60-bit coefficient primes); t = the smallest prime = 1 mod 2N and one \
+         20-, 40-, 60-bit prime = 1 mod 2N (polynomial section: + t = 7, 16, 2^59 without batching). Each case loops over the whole \
+         alphabet of its section (unit vectors, monomials, lengths, steps, Galois elements, positions x values); \
+         traces_validated_against_impl counts the individual library calls compared with the reference. \
+         non-trivial = at least one call compared on a vector with a non-zero entry.",
+    );
+    rep.assume("slots are defined independently as evaluations at psi^(+-3^i) with psi = plain_ntt_tables().root(); psi itself is only checked to be a primitive 2N-th root (psi^N = -1) and, for t < 2^21, the minimal one");
+    rep.assume("slot values are < t (BatchEncoder::encode does not reduce its input; SEAL validates this in debug builds only)");
+    rep.assume("generic vectors are a fixed function of (seed, N, t, index); beyond the stated exhaustive sets vectors are unit / monomial / generic / extreme, not all of Z_t^N");
+    rep.assume("apply_galois_plain is exercised on full-length (coeff_count = N) plaintexts as produced by BatchEncoder::encode");
+}
 
-pub fn sections(_cfg: &RunCfg) -> Vec<Box<dyn AnySection>> {
-    vec![]
+#[derive(Serialize, Deserialize, Clone, Debug)]
+pub struct Case {
+    pub spec: ParamSpec,
+    /// exhaustive section: fixed leading slot values (the check enumerates all completions)
+    #[serde(default)]
+    pub prefix: Vec<u64>,
+    /// the alphabet of the section is cut into `parts` contiguous chunks (large N only, for parallelism); this case runs chunk `part`
+    #[serde(default)]
+    pub part: usize,
+    #[serde(default = "one")]
+    pub parts: usize,
+}
+
+fn one() -> usize {
+    1
+}
+
+impl Case {
+    /// sub-range of 0..len handled by this case
+    fn chunk(&self, len: usize) -> std::ops::Range<usize> {
+        let p = self.parts.max(1);
+        let i = self.part.min(p - 1);
+        (len * i / p)..(len * (i + 1) / p)
+    }
+    /// item `idx` of a short list is handled by this case
+    fn mine(&self, idx: usize) -> bool {
+        idx % self.parts.max(1) == self.part.min(self.parts.max(1) - 1)
+    }
+    fn first(&self) -> bool {
+        self.part == 0 || self.parts <= 1
+    }
+}
+
+// ---------------------------------------------------------------------------------------------
+// parameter sets
+// ---------------------------------------------------------------------------------------------
+
+fn smallest_batching_prime(n: usize) -> u64 {
+    let m = 2 * n as u64;
+    let mut x = m + 1;
+    while !is_prime_u64(x) {
+        x += m;
+    }
+    x
+}
+
+/// coefficient primes (two largest 60-bit primes = 1 mod 2N) and the third one (used as the 60-bit t)
+fn q_and_t60(n: usize) -> (Vec<u64>, u64) {
+    let p = primes_1_mod(2 * n as u64, 60, 3);
+    assert_eq!(p.len(), 3);
+    (vec![p[0], p[1]], p[2])
+}
+
+fn batching_ts(n: usize) -> Vec<u64> {
+    let (_, t60) = q_and_t60(n);
+    let mut ts = vec![smallest_batching_prime(n), primes_1_mod(2 * n as u64, 20, 1)[0], primes_1_mod(2 * n as u64, 40, 1)[0], t60];
+    ts.dedup();
+    ts
+}
+
+fn specs(kmin: u32, kmax: u32, extra_ts: &[u64], parts_of: fn(usize) -> usize) -> Vec<Case> {
+    let mut v = vec![];
+    for k in kmin..=kmax {
+        let n = 1usize << k;
+        let (q, _) = q_and_t60(n);
+        let mut ts = batching_ts(n);
+        ts.extend_from_slice(extra_ts);
+        let parts = parts_of(n).max(1);
+        for t in ts {
+            for scheme in [Scheme::BFV, Scheme::BGV] {
+                for part in 0..parts {
+                    v.push(Case { spec: ParamSpec::new(scheme, n, q.clone(), t), prefix: vec![], part, parts });
+                }
+            }
+        }
+    }
+    v
+}
+
+fn parts_alphabet(n: usize) -> usize {
+    (n / 64).clamp(1, 128)
+}
+/// ring: 81 ordered pairs up to N = 256, 6 beyond
+fn parts_ring(n: usize) -> usize {
+    if n <= 256 {
+        (n / 64).max(1)
+    } else {
+        6
+    }
+}
+/// polynomial: every length up to N = 64, 7 lengths beyond
+fn parts_polynomial(n: usize) -> usize {
+    if n <= 64 {
+        1
+    } else {
+        7
+    }
+}
+
+// ---------------------------------------------------------------------------------------------
+// environment of one case
+// ---------------------------------------------------------------------------------------------
+
+struct Env {
+    ctx: Arc<HeContext>,
+    be: BatchEncoder,
+    n: usize,
+    t: u64,
+    sch: Scheme,
+    batching: bool,
+    psi: u64,
+    psi_min_checked: bool,
+    /// r_i as defined in the module comment (empty without batching)
+    roots: Vec<u64>,
+}
+
+fn is_batching_t(n: usize, t: u64) -> bool {
+    is_prime_u64(t) && (t - 1) % (2 * n as u64) == 0
+}
+
+fn setup(c: &Case, seed: u64, section: &str) -> Result<Env, CaseOut> {
+    let tag = h64(&(section, serde_json::to_string(c).unwrap_or_default()));
+    env_real(seed, tag);
+    let (n, t) = (c.spec.n, c.spec.t);
+    let ctx = match guard(|| c.spec.context()) {
+        Ok(x) => x,
+        Err(e) => return Err(CaseOut::fail(format!("setup:context:{}", panic_class(&e)), "context builds", e)),
+    };
+    if !ctx.parameters_set() {
+        return Err(CaseOut::skip("parameter set rejected by the library"));
+    }
+    let cd = ctx.first_context_data().unwrap();
+    let lib_batching = cd.qualifiers().using_batching;
+    let want = is_batching_t(n, t);
+    if lib_batching != want {
+        return Err(CaseOut::fail(
+            "setup:using_batching:wrong",
+            format!("using_batching = {want} for N={n} t={t} (t prime and = 1 mod 2N)"),
+            format!("{lib_batching}"),
+        ));
+    }
+    let be = match guard(|| BatchEncoder::new(ctx.clone())) {
+        Ok(x) => x,
+        Err(e) => return Err(CaseOut::fail(format!("setup:encoder:{}", panic_class(&e)), "BatchEncoder::new accepts a valid BFV/BGV context", e)),
+    };
+    if be.simd_encoding_supported() != want {
+        return Err(CaseOut::fail("setup:simd_encoding_supported:wrong", format!("{want}"), format!("{}", !want)));
+    }
+    let (mut psi, mut psi_min_checked, mut roots) = (0, false, vec![]);
+    if want {
+        psi = cd.plain_ntt_tables().root();
+        if psi == 0 || psi >= t || pow_mod(psi, n as u64, t) != t - 1 {
+            return Err(CaseOut::fail(
+                "setup:psi:not-a-primitive-2N-th-root",
+                format!("psi^N = -1 mod t (N={n}, t={t})"),
+                format!("psi={psi}, psi^N={}", pow_mod(psi, n as u64, t)),
+            ));
+        }
+        if t < (1 << 21) {
+            let m = min_primitive_root_2n(n, t);
+            if m != Some(psi) {
+                return Err(CaseOut::fail("setup:psi:not-minimal", format!("{m:?} (N={n}, t={t})"), format!("{psi}")));
+            }
+            psi_min_checked = true;
+        }
+        let m = 2 * n as u64;
+        let h = n / 2;
+        roots = vec![0; n];
+        let mut e = 1u64;
+        for i in 0..h {
+            roots[i] = pow_mod(psi, e, t);
+            roots[h + i] = pow_mod(psi, m - e, t);
+            e = e * 3 % m;
+        }
+    }
+    Ok(Env { ctx, be, n, t, sch: c.spec.scheme, batching: want, psi, psi_min_checked, roots })
+}
+
+fn mk_plain(coeffs: &[u64]) -> Plaintext {
+    let mut p = Plaintext::new();
+    p.resize(coeffs.len());
+    p.data_mut().copy_from_slice(coeffs);
+    p
+}
+
+fn fv(v: &[u64]) -> String {
+    if v.len() <= 24 {
+        format!("{v:?}")
+    } else {
+        format!("{:?}…(len {}, h={:016x})", &v[..24], v.len(), h64(v))
+    }
+}
+
+/// first index at which two equally long vectors differ
+fn first_diff(a: &[u64], b: &[u64]) -> String {
+    if a.len() != b.len() {
+        return format!("lengths {} vs {}", a.len(), b.len());
+    }
+    match a.iter().zip(b).position(|(x, y)| x != y) {
+        Some(i) => format!("first difference at index {i}: expected {} observed {}", a[i], b[i]),
+        None => "equal".into(),
+    }
+}
+
+/// shape of a batch-encoded plaintext
+fn meta_problem(p: &Plaintext, n: usize, t: u64) -> Option<String> {
+    if p.coeff_count() != n || p.data().len() != n {
+        return Some(format!("coeff_count={} data.len={} (N={n})", p.coeff_count(), p.data().len()));
+    }
+    if p.is_ntt_form() {
+        return Some("parms_id not zero".into());
+    }
+    if let Some(i) = p.data().iter().position(|&x| x >= t) {
+        return Some(format!("coefficient {i} = {} >= t = {t}", p.data()[i]));
+    }
+    None
+}
+
+fn gen_fill(seed: u64, n: usize, t: u64, idx: u64, len: usize) -> Vec<u64> {
+    (0..len).map(|i| h64(&(seed, "c11-generic", n, t, idx, i)) % t).collect()
+}
+
+/// all slots distinct and non-zero (t > N always holds for batching t)
+fn gen_distinct(seed: u64, n: usize, t: u64) -> Vec<u64> {
+    let c = 1 + h64(&(seed, "c11-distinct", n, t)) % (t - 1);
+    (0..n).map(|i| mul_mod(i as u64 + 1, c, t)).collect()
+}
+
+fn named_vectors(seed: u64, n: usize, t: u64, full: bool) -> Vec<(&'static str, Vec<u64>)> {
+    let mut v = vec![
+        ("generic", gen_fill(seed, n, t, 0, n)),
+        ("max", vec![t - 1; n]),
+        ("generic-row0", gen_fill(seed, n, t, 1, n / 2)),
+    ];
+    if full {
+        v.push(("generic2", gen_fill(seed, n, t, 2, n)));
+        v.push(("ones", vec![1; n]));
+        v.push(("ramp", (0..n as u64).map(|i| i % t).collect()));
+        v.push(("alt", (0..n).map(|i| if i % 2 == 0 { 0 } else { t - 1 }).collect()));
+        v.push(("zero", vec![0; n]));
+        v.push(("distinct", gen_distinct(seed, n, t)));
+    }
+    v
+}
+
+macro_rules! fail {
+    ($key:expr, $exp:expr, $obs:expr) => {
+        return CaseOut::fail($key, $exp, $obs)
+    };
+}
+
+/// encode (guarded) + shape; Err = finished CaseOut
+fn encode_checked(e: &Env, sec: &str, class: &str, v: &[u64]) -> Result<Plaintext, CaseOut> {
+    let p = guard(|| e.be.encode_new(v)).map_err(|m| {
+        CaseOut::fail(format!("{sec}:encode:{class}:panic:{}", panic_class(&m)), format!("{:?} N={} t={}: encode({}) returns", e.sch, e.n, e.t, fv(v)), m)
+    })?;
+    if let Some(pb) = meta_problem(&p, e.n, e.t) {
+        return Err(CaseOut::fail(
+            format!("{sec}:encode:{class}:shape"),
+            format!("{:?} N={} t={}: encode({}) has N coefficients < t, coefficient form", e.sch, e.n, e.t, fv(v)),
+            pb,
+        ));
+    }
+    Ok(p)
+}
+
+fn decode_checked(e: &Env, sec: &str, class: &str, p: &Plaintext, expect: &[u64], what: &str) -> Result<(), CaseOut> {
+    let d = guard(|| e.be.decode_new(p)).map_err(|m| {
+        CaseOut::fail(format!("{sec}:decode:{class}:panic:{}", panic_class(&m)), format!("{:?} N={} t={}: decode of {what} returns", e.sch, e.n, e.t), m)
+    })?;
+    if d != expect {
+        return Err(CaseOut::fail(
+            format!("{sec}:decode:{class}:wrong"),
+            format!("{:?} N={} t={} psi={}: decode of {what} = {}", e.sch, e.n, e.t, e.psi, fv(expect)),
+            format!("{} ({})", fv(&d), first_diff(expect, &d)),
+        ));
+    }
+    Ok(())
+}
+
+/// naive evaluation of the polynomial at every slot root == v (padded)
+fn eval_checked(e: &Env, sec: &str, class: &str, p: &Plaintext, v: &[u64]) -> Result<(), CaseOut> {
+    let vp = pad(v, e.n);
+    for i in 0..e.n {
+        let x = peval(p.data(), e.roots[i], e.t);
+        if x != vp[i] {
+            let (row, col) = (i / (e.n / 2).max(1), i % (e.n / 2).max(1));
+            return Err(CaseOut::fail(
+                format!("{sec}:encode:{class}:wrong"),
+                format!("{:?} N={} t={} psi={}: encode({}) evaluated at the root of slot {i} (row {row}, column {col}: {}) = {}", e.sch, e.n, e.t, e.psi, fv(v), e.roots[i], vp[i]),
+                format!("{x}; polynomial {}", fv(p.data())),
+            ));
+        }
+    }
+    Ok(())
+}
+
+macro_rules! tri {
+    ($e:expr) => {
+        match $e {
+            Ok(x) => x,
+            Err(o) => return o,
+        }
+    };
+}
+
+fn outcome(e: &Env, sec: &str, extra: u64) -> u64 {
+    h64(&(sec, e.sch, e.n.trailing_zeros(), 64 - e.t.leading_zeros(), e.batching, e.psi_min_checked, extra))
+}
+
+// ---------------------------------------------------------------------------------------------
+// section `slots`
+// ---------------------------------------------------------------------------------------------
+
+fn check_slots(c: &Case, seed: u64) -> CaseOut {
+    let sec = "slots";
+    let e = tri!(setup(c, seed, sec));
+    let (n, t) = (e.n, e.t);
+    let mut steps = 0u64;
+    if c.first() && (e.be.slot_count() != n || e.be.row_count() != 2 || e.be.column_count() != n / 2 || e.be.get_plain_modulus() != t) {
+        fail!(
+            "slots:shape",
+            format!("slot_count {n}, 2 rows, {} columns, plain modulus {t}", n / 2),
+            format!("{} / {} / {} / {}", e.be.slot_count(), e.be.row_count(), e.be.column_count(), e.be.get_plain_modulus())
+        );
+    }
+    // the public bit-reversal helper: out[i] = in[bit_reverse(i)] on a vector of distinct entries
+    if c.first() {
+        let mut w: Vec<u64> = (0..n as u64).map(|i| i * 3 + 1).collect();
+        let exp: Vec<u64> = (0..n).map(|i| bit_reverse(i, n.trailing_zeros()) as u64 * 3 + 1).collect();
+        if let Err(m) = guard(|| e.be.reverse_bits(&mut w)) {
+            fail!(format!("slots:reverse_bits:panic:{}", panic_class(&m)), format!("N={n}: reverse_bits on N entries returns"), m);
+        }
+        if w != exp {
+            fail!("slots:reverse_bits:wrong", format!("N={n}: {}", fv(&exp)), fv(&w));
+        }
+        steps += 1;
+    }
+    let ninv = inv_mod_u64(n as u64 % t, t).unwrap();
+    // unit vectors: closed form of the Lagrange basis
+    for j in c.chunk(n) {
+        let rinv = pow_mod(e.roots[j], 2 * n as u64 - 1, t);
+        for (vi, &val) in [1u64, t - 1].iter().enumerate() {
+            let len = if vi == 0 { n } else { j + 1 };
+            let mut v = vec![0u64; len];
+            v[j] = val;
+            let p = tri!(encode_checked(&e, sec, "unit", &v));
+            let mut cexp = mul_mod(val, ninv, t);
+            for k in 0..n {
+                if p.data()[k] != cexp {
+                    fail!(
+                        "slots:encode:unit:wrong",
+                        format!("{:?} N={n} t={t} psi={}: encode({val} * e_{j}) coefficient {k} = {val} * N^-1 * r^-{k} = {cexp} with r = root of slot {j} = {}", e.sch, e.psi, e.roots[j]),
+                        format!("{}; polynomial {}", p.data()[k], fv(p.data()))
+                    );
+                }
+                cexp = mul_mod(cexp, rinv, t);
+            }
+            tri!(decode_checked(&e, sec, "unit", &p, &pad(&v, n), &format!("encode({val} * e_{j})")));
+            steps += 2;
+        }
+    }
+    // monomials c * X^k decode to c * r_i^k
+    let kr = c.chunk(n);
+    let mut pw: Vec<u64> = e.roots.iter().map(|&r| pow_mod(r, kr.start as u64, t)).collect();
+    for k in kr {
+        for (ci, &cv) in [1u64, t - 1].iter().enumerate() {
+            let len = if ci == 0 { k + 1 } else { n };
+            let mut co = vec![0u64; len];
+            co[k] = cv;
+            let exp: Vec<u64> = pw.iter().map(|&x| mul_mod(cv, x, t)).collect();
+            tri!(decode_checked(&e, sec, "monomial", &mk_plain(&co), &exp, &format!("{cv} * X^{k} (coeff_count {len})")));
+            steps += 1;
+        }
+        for i in 0..n {
+            pw[i] = mul_mod(pw[i], e.roots[i], t);
+        }
+    }
+    // the empty plaintext is the zero polynomial
+    if c.first() {
+        tri!(decode_checked(&e, sec, "empty", &Plaintext::new(), &vec![0; n], "the empty plaintext"));
+        steps += 1;
+    }
+    // generic and extreme vectors: naive evaluation at the N roots
+    for (idx, (name, v)) in named_vectors(seed, n, t, n <= 1024).into_iter().enumerate() {
+        if !c.mine(idx) {
+            continue;
+        }
+        let class = if name.starts_with("generic") { "generic" } else { "extreme" };
+        let p = tri!(encode_checked(&e, sec, class, &v));
+        tri!(eval_checked(&e, sec, class, &p, &v));
+        tri!(decode_checked(&e, sec, class, &p, &pad(&v, n), &format!("encode({name} = {})", fv(&v))));
+        steps += 2;
+    }
+    CaseOut::pass(steps > 0, outcome(&e, sec, 0), steps)
+}
+
+// ---------------------------------------------------------------------------------------------
+// section `lengths`
+// ---------------------------------------------------------------------------------------------
+
+fn check_lengths(c: &Case, seed: u64) -> CaseOut {
+    let sec = "lengths";
+    let e = tri!(setup(c, seed, sec));
+    let (n, t) = (e.n, e.t);
+    let g = gen_fill(seed, n, t, 3, n).iter().map(|&x| if x == 0 { 1 } else { x }).collect::<Vec<u64>>();
+    let ninv = inv_mod_u64(n as u64 % t, t).unwrap();
+    let mut steps = 0u64;
+    // expected encoding, built incrementally from the closed-form unit encodings: encode(g[..len]) = encode(g[..len-1]) + g[len-1] * U_{len-1}.
+    // A chunk that does not start at length 0 takes the library's encoding of the preceding length as its base (that one is judged by
+    // the preceding chunk), so the chain of all chunks is anchored at encode([]) = 0.
+    let lr = c.chunk(n + 1);
+    let mut expect = vec![0u64; n];
+    if lr.start > 0 {
+        expect = tri!(encode_checked(&e, sec, "short", &g[..lr.start - 1])).data().clone();
+    }
+    for len in lr {
+        if len > 0 {
+            let j = len - 1;
+            let rinv = pow_mod(e.roots[j], 2 * n as u64 - 1, t);
+            let mut cf = mul_mod(g[j], ninv, t);
+            for k in 0..n {
+                expect[k] = add_mod(expect[k], cf, t);
+                cf = mul_mod(cf, rinv, t);
+            }
+        }
+        let v = &g[..len];
+        let p = tri!(encode_checked(&e, sec, "short", v));
+        if p.data().as_slice() != expect.as_slice() {
+            fail!(
+                "lengths:encode:short:wrong",
+                format!("{:?} N={n} t={t} psi={}: encode(first {len} entries of {}) = sum of closed-form unit encodings = {}", e.sch, e.psi, fv(&g), fv(&expect)),
+                format!("{} ({})", fv(p.data()), first_diff(&expect, p.data()))
+            );
+        }
+        // destination form on a dirty destination (junk of a different length)
+        let mut dirty = mk_plain(&vec![t - 1; if len % 2 == 0 { n } else { (len % n).max(1) }]);
+        if let Err(m) = guard(|| e.be.encode(v, &mut dirty)) {
+            fail!(format!("lengths:encode-into:panic:{}", panic_class(&m)), format!("{:?} N={n} t={t}: encode(len {len}) into a used plaintext returns", e.sch), m);
+        }
+        if dirty.data() != p.data() || dirty.coeff_count() != n || dirty.is_ntt_form() {
+            fail!(
+                "lengths:encode-into:wrong",
+                format!("{:?} N={n} t={t}: encode(len {len}) into a used plaintext = encode_new = {}", e.sch, fv(p.data())),
+                format!("{} coeff_count={}", fv(dirty.data()), dirty.coeff_count())
+            );
+        }
+        tri!(decode_checked(&e, sec, "short", &p, &pad(v, n), &format!("encode(first {len} entries of {})", fv(&g))));
+        // destination form of decode on a dirty destination
+        let mut dd = vec![7u64; (len * 3) % (2 * n + 1)];
+        if let Err(m) = guard(|| e.be.decode(&p, &mut dd)) {
+            fail!(format!("lengths:decode-into:panic:{}", panic_class(&m)), "decode into a used vector returns", m);
+        }
+        if dd != pad(v, n) {
+            fail!("lengths:decode-into:wrong", format!("{:?} N={n} t={t}: {}", e.sch, fv(&pad(v, n))), fv(&dd));
+        }
+        steps += 4;
+    }
+    // too long
+    let mut refusals = 0u64;
+    for len in if c.first() { vec![n + 1, 2 * n] } else { vec![] } {
+        let v = vec![1u64; len];
+        match guard(|| e.be.encode_new(&v)) {
+            Err(_) => refusals += 1,
+            Ok(p) => fail!(
+                "lengths:encode:too-long:accepted",
+                format!("{:?} N={n} t={t}: encode of {len} values is refused", e.sch),
+                format!("returned a plaintext with {} coefficients", p.coeff_count())
+            ),
+        }
+        let mut d = Plaintext::new();
+        match guard(|| e.be.encode(&v, &mut d)) {
+            Err(_) => refusals += 1,
+            Ok(()) => fail!("lengths:encode:too-long:accepted", format!("{:?} N={n} t={t}: encode of {len} values is refused", e.sch), "accepted (destination form)"),
+        }
+        steps += 2;
+    }
+    CaseOut::pass(steps > 0, outcome(&e, sec, refusals), steps)
+}
+
+// ---------------------------------------------------------------------------------------------
+// section `exhaustive`
+// ---------------------------------------------------------------------------------------------
+
+fn next_vec(v: &mut [u64], from: usize, t: u64) -> bool {
+    // odometer over positions from..len, last position fastest
+    for i in (from..v.len()).rev() {
+        if v[i] + 1 < t {
+            v[i] += 1;
+            return true;
+        }
+        v[i] = 0;
+    }
+    false
+}
+
+fn slotwise(u: &[u64], v: &[u64], t: u64, mul: bool) -> Vec<u64> {
+    u.iter().zip(v).map(|(&a, &b)| if mul { mul_mod(a, b, t) } else { add_mod(a, b, t) }).collect()
+}
+
+/// encode(u) (+|*) encode(v) computed naively decodes to the slot-wise result
+fn pair_checked(e: &Env, sec: &str, class: &str, u: &[u64], v: &[u64], pu: &Plaintext, pv: &Plaintext) -> Result<u64, CaseOut> {
+    let (n, t) = (e.n, e.t);
+    let (up, vp) = (pad(u, n), pad(v, n));
+    let s = padd(pu.data(), pv.data(), t);
+    decode_checked(e, sec, &format!("sum:{class}"), &mk_plain(&s), &slotwise(&up, &vp, t, false), &format!("encode({}) + encode({})", fv(u), fv(v)))?;
+    let m = pmul(pu.data(), pv.data(), t);
+    decode_checked(e, sec, &format!("product:{class}"), &mk_plain(&m), &slotwise(&up, &vp, t, true), &format!("encode({}) * encode({}) mod (X^N+1, t)", fv(u), fv(v)))?;
+    Ok(2)
+}
+
+fn check_exhaustive(c: &Case, seed: u64) -> CaseOut {
+    let sec = "exhaustive";
+    let e = tri!(setup(c, seed, sec));
+    let (n, t) = (e.n, e.t);
+    let k = c.prefix.len();
+    if k > n || c.prefix.iter().any(|&x| x >= t) {
+        return CaseOut::skip("prefix outside Z_t^N");
+    }
+    let mut steps = 0u64;
+    let all_pairs = (t as u128).pow(n as u32) <= 200;
+    let partners: Vec<Vec<u64>> = if all_pairs {
+        vec![]
+    } else {
+        let mut p = vec![vec![t - 1; n], gen_distinct(seed, n, t), gen_fill(seed, n, t, 4, n), (0..n as u64).map(|i| (i * i + 1) % t).collect::<Vec<u64>>()];
+        for j in 0..n {
+            let mut u = vec![0; n];
+            u[j] = t - 1;
+            p.push(u);
+        }
+        p
+    };
+    let mut partner_enc = vec![];
+    for u in &partners {
+        partner_enc.push(tri!(encode_checked(&e, sec, "partner", u)));
+    }
+    let mut seen = std::collections::BTreeSet::new();
+    let mut all: Vec<(Vec<u64>, Plaintext)> = vec![];
+    let mut v = vec![0u64; n];
+    v[..k].copy_from_slice(&c.prefix);
+    loop {
+        let p = tri!(encode_checked(&e, sec, "all", &v));
+        tri!(eval_checked(&e, sec, "all", &p, &v));
+        tri!(decode_checked(&e, sec, "all", &p, &v, &format!("encode({})", fv(&v))));
+        steps += 2;
+        if !seen.insert(p.data().clone()) {
+            fail!("exhaustive:encode:not-injective", "distinct vectors have distinct encodings", format!("second vector with encoding {}: {}", fv(p.data()), fv(&v)));
+        }
+        for (u, pu) in partners.iter().zip(&partner_enc) {
+            steps += tri!(pair_checked(&e, sec, "all", &v, u, &p, pu));
+        }
+        if all_pairs {
+            all.push((v.clone(), p));
+        }
+        if !next_vec(&mut v, k, t) {
+            break;
+        }
+    }
+    for (u, pu) in &all {
+        for (w, pw) in &all {
+            steps += tri!(pair_checked(&e, sec, "all", u, w, pu, pw));
+        }
+    }
+    CaseOut::pass(steps > 0, outcome(&e, sec, seen.len().min(1000) as u64), steps)
+}
+
+// ---------------------------------------------------------------------------------------------
+// section `ring`
+// ---------------------------------------------------------------------------------------------
+
+fn check_ring(c: &Case, seed: u64, unit_nmax: usize) -> CaseOut {
+    let sec = "ring";
+    let e = tri!(setup(c, seed, sec));
+    let (n, t) = (e.n, e.t);
+    let mut steps = 0u64;
+    if n <= unit_nmax && c.first() {
+        let mut units: Vec<(Vec<u64>, Plaintext)> = vec![];
+        for j in 0..n {
+            for val in [1, t - 1] {
+                let mut v = vec![0u64; n];
+                v[j] = val;
+                let p = tri!(encode_checked(&e, sec, "unit", &v));
+                units.push((v, p));
+            }
+        }
+        for (u, pu) in &units {
+            for (w, pw) in &units {
+                steps += tri!(pair_checked(&e, sec, "unit", u, w, pu, pw));
+            }
+        }
+        // generic x unit
+        let g = gen_fill(seed, n, t, 5, n);
+        let pg = tri!(encode_checked(&e, sec, "generic", &g));
+        for (u, pu) in &units {
+            steps += tri!(pair_checked(&e, sec, "generic-unit", &g, u, &pg, pu));
+        }
+    }
+    let vs = named_vectors(seed, n, t, n <= 256);
+    let mut encs = vec![];
+    for (_, v) in &vs {
+        encs.push(tri!(encode_checked(&e, sec, "generic", v)));
+    }
+    let mut idx = 0;
+    for (i, (_, u)) in vs.iter().enumerate() {
+        for (j, (_, w)) in vs.iter().enumerate() {
+            // beyond N = 256 only the upper triangle (the naive product is O(N^2))
+            if n > 256 && j < i {
+                continue;
+            }
+            idx += 1;
+            if !c.mine(idx - 1) {
+                continue;
+            }
+            steps += tri!(pair_checked(&e, sec, "generic", u, w, &encs[i], &encs[j]));
+        }
+    }
+    CaseOut::pass(steps > 0, outcome(&e, sec, (n <= unit_nmax) as u64), steps)
+}
+
+// ---------------------------------------------------------------------------------------------
+// section `galois`
+// ---------------------------------------------------------------------------------------------
+
+/// both rows rotated left by s (s may be negative), rows exchanged first if `swap`
+fn rotate_matrix(v: &[u64], s: isize, swap: bool) -> Vec<u64> {
+    let n = v.len();
+    let h = n / 2;
+    let sh = s.rem_euclid(h as isize) as usize;
+    let mut r = vec![0u64; n];
+    for i in 0..h {
+        let (a, b) = (v[(i + sh) % h], v[h + (i + sh) % h]);
+        if swap {
+            r[i] = b;
+            r[h + i] = a;
+        } else {
+            r[i] = a;
+            r[h + i] = b;
+        }
+    }
+    r
+}
+
+fn check_galois(c: &Case, seed: u64) -> CaseOut {
+    let sec = "galois";
+    let e = tri!(setup(c, seed, sec));
+    let (n, t) = (e.n, e.t);
+    let (h, m) = (n / 2, 2 * n);
+    let eval = match guard(|| Evaluator::new(e.ctx.clone())) {
+        Ok(x) => x,
+        Err(msg) => fail!(format!("galois:evaluator:{}", panic_class(&msg)), "Evaluator::new", msg),
+    };
+    let tool = e.ctx.key_context_data().unwrap();
+    let tool = tool.verif_galois_tool();
+    let mut steps = 0u64;
+
+    let mut vs: Vec<(&str, Vec<u64>)> = vec![("distinct", gen_distinct(seed, n, t)), ("generic-short", gen_fill(seed, n, t, 6, h + 1))];
+    let mut u = vec![0u64; n];
+    u[1 % n] = t - 1;
+    vs.push(("unit", u));
+    if n <= 64 {
+        vs.push(("max", vec![t - 1; n]));
+        vs.push(("generic", gen_fill(seed, n, t, 7, n)));
+    }
+    let mut encs = vec![];
+    for (_, v) in &vs {
+        encs.push(tri!(encode_checked(&e, sec, "input", v)));
+    }
+
+    // one Galois element on every input: polynomial == naive X -> X^g, decoded matrix == expected
+    let apply = |g: usize, s: isize, swap: bool, class: &str, what: &str, steps: &mut u64| -> Result<(), CaseOut> {
+        for ((name, v), p) in vs.iter().zip(&encs) {
+            let r = guard(|| eval.apply_galois_plain_new(p, g)).map_err(|msg| {
+                CaseOut::fail(format!("galois:apply:{class}:panic:{}", panic_class(&msg)), format!("{:?} N={n} t={t}: apply_galois_plain(encode({name}), {g}) [{what}] returns", e.sch), msg)
+            })?;
+            if let Some(pb) = meta_problem(&r, n, t) {
+                return Err(CaseOut::fail(format!("galois:apply:{class}:shape"), format!("{:?} N={n} t={t}: element {g} [{what}] gives N coefficients < t", e.sch), pb));
+            }
+            let pref = pgalois(p.data(), g, t);
+            if r.data().as_slice() != pref.as_slice() {
+                return Err(CaseOut::fail(
+                    format!("galois:apply:{class}:polynomial-wrong"),
+                    format!("{:?} N={n} t={t}: m(X) -> m(X^{g}) [{what}] of {} = {}", e.sch, fv(p.data()), fv(&pref)),
+                    format!("{} ({})", fv(r.data()), first_diff(&pref, r.data())),
+                ));
+            }
+            let exp = rotate_matrix(&pad(v, n), s, swap);
+            decode_checked(
+                &e,
+                sec,
+                class,
+                &r,
+                &exp,
+                &format!("apply_galois_plain(encode({name} = {}), {g}) [{what}: rows {}rotated left by {s}]", fv(v), if swap { "exchanged and " } else { "" }),
+            )?;
+            // the other two forms agree
+            let mut a = p.clone();
+            let mut b = Plaintext::new();
+            let other = guard(|| {
+                eval.apply_galois_plain_inplace(&mut a, g);
+                eval.apply_galois_plain(p, g, &mut b);
+            });
+            if other.is_err() || a.data() != r.data() || b.data() != r.data() || a.coeff_count() != n || b.coeff_count() != n {
+                return Err(CaseOut::fail(
+                    format!("galois:apply:{class}:forms-differ"),
+                    format!("{:?} N={n} t={t}: inplace / destination forms of apply_galois_plain(.., {g}) equal the _new form", e.sch),
+                    format!("{:?} / {} / {}", other.err(), fv(a.data()), fv(b.data())),
+                ));
+            }
+            *steps += 4;
+        }
+        Ok(())
+    };
+
+    // (i) every rotation step, element taken from the library
+    let mut refusals = 0u64;
+    let hs = h as isize;
+    // steps -(N/2-1)..N/2-1 are positions 0..N-2 of the chunked range
+    for s in c.chunk(n - 1).map(|x| x as isize - (hs - 1)) {
+        let g = match guard(|| tool.get_elt_from_step(s)) {
+            Ok(g) => g,
+            Err(msg) => fail!(format!("galois:elt_from_step:panic:{}", panic_class(&msg)), format!("N={n}: get_elt_from_step({s}) returns (|s| < N/2)"), msg),
+        };
+        steps += 1;
+        if s == 0 {
+            // documented convention (as in SEAL): step 0 names the column swap
+            tri!(apply(g, 0, true, "swap", "get_elt_from_step(0) = column swap", &mut steps));
+        } else {
+            tri!(apply(g, s, false, "step", &format!("get_elt_from_step({s})"), &mut steps));
+        }
+        // the context's other tools agree (first level)
+        let g2 = guard(|| e.ctx.first_context_data().unwrap().verif_galois_tool().get_elt_from_step(s));
+        if g2.as_ref().ok() != Some(&g) {
+            fail!("galois:elt_from_step:levels-differ", format!("{g}"), format!("{g2:?}"));
+        }
+    }
+    // column swap by its documented element 2N-1
+    if c.first() {
+        tri!(apply(m - 1, 0, true, "swap", "2N-1 = column swap", &mut steps));
+    }
+    // out-of-range steps: refused, or a correct rotation modulo N/2
+    for s in if c.first() { vec![hs, -hs, hs + 1] } else { vec![] } {
+        match guard(|| tool.get_elt_from_step(s)) {
+            Err(_) => refusals += 1,
+            Ok(g) => {
+                if g % 2 == 1 && g < m {
+                    tri!(apply(g, s, false, "step-out-of-range", &format!("get_elt_from_step({s})"), &mut steps));
+                } else {
+                    fail!("galois:elt_from_step:out-of-range:invalid-element", format!("N={n}: get_elt_from_step({s}) refuses or names a rotation by {s} mod N/2"), format!("{g}"));
+                }
+            }
+        }
+    }
+    // (ii) the whole Galois group: g = 3^s -> rotation by s; g = -3^s -> swap and rotation by s
+    let mut pw = 1usize;
+    let mut seen = vec![false; m];
+    let sr = c.chunk(h.max(1));
+    for s in 0..h.max(1) {
+        for (g, swap) in [(pw, false), (m - pw, true)] {
+            if seen[g] {
+                fail!("galois:reference:group-enumeration", "+-3^s enumerate the odd residues once", format!("{g} twice"));
+            }
+            seen[g] = true;
+            if !sr.contains(&s) {
+                continue;
+            }
+            tri!(apply(g, s as isize, swap, "element", &format!("{}3^{s} mod 2N", if swap { "-" } else { "" }), &mut steps));
+        }
+        pw = pw * 3 % m;
+    }
+    if (1..m).step_by(2).any(|g| !seen[g]) {
+        fail!("galois:reference:group-enumeration", "every odd residue is +-3^s", "some odd residue missed");
+    }
+    // (iii) get_elts_all = column swap and rotations by +-2^k, k < log2(N/2)
+    if !c.first() {
+        return CaseOut::pass(steps > 0, outcome(&e, sec, refusals), steps);
+    }
+    let got = match guard(|| tool.get_elts_all()) {
+        Ok(x) => x,
+        Err(msg) => fail!(format!("galois:elts_all:panic:{}", panic_class(&msg)), "get_elts_all returns", msg),
+    };
+    steps += 1;
+    let mut want = std::collections::BTreeSet::new();
+    want.insert(m - 1);
+    let mut st = 1usize;
+    while st < h {
+        want.insert(pow_mod(3, st as u64, m as u64) as usize);
+        want.insert(pow_mod(3, (h - st) as u64, m as u64) as usize);
+        st *= 2;
+    }
+    let gotset: std::collections::BTreeSet<usize> = got.iter().cloned().collect();
+    if gotset != want {
+        fail!("galois:elts_all:wrong", format!("N={n}: {{2N-1}} and 3^(+-2^k) mod 2N for 2^k < N/2 = {want:?}"), format!("{got:?}"));
+    }
+    CaseOut::pass(steps > 0, outcome(&e, sec, refusals), steps)
+}
+
+// ---------------------------------------------------------------------------------------------
+// section `galois_short` (opt-in: VERIF_C11_SHORT_PLAIN=1) — outside the statement of C11, which only speaks about encode(v)
+// (always N coefficients): apply_galois_plain on valid plaintexts that store fewer than N coefficients (encode_polynomial of a
+// short list, or the result of decrypt, which trims leading zero coefficients).
+// ---------------------------------------------------------------------------------------------
+
+fn check_galois_short(c: &Case, seed: u64) -> CaseOut {
+    let sec = "galois_short";
+    let e = tri!(setup(c, seed, sec));
+    let (n, t) = (e.n, e.t);
+    let (h, m) = (n / 2, 2 * n);
+    let eval = match guard(|| Evaluator::new(e.ctx.clone())) {
+        Ok(x) => x,
+        Err(msg) => fail!(format!("galois_short:evaluator:{}", panic_class(&msg)), "Evaluator::new", msg),
+    };
+    let mut steps = 0u64;
+    let lens: Vec<usize> = if n <= 16 { (1..=n).chain([0]).collect() } else { vec![1, 2, h, n - 1, n, 0] };
+    for len in lens {
+        let co: Vec<u64> = gen_fill(seed, n, t, 9, len).iter().map(|&x| x.max(1)).collect();
+        let p = mk_plain(&co);
+        let slots: Vec<u64> = e.roots.iter().map(|&r| peval(&co, r, t)).collect();
+        let mut pw = 1usize;
+        for s in 0..h.max(1) {
+            for (g, swap) in [(pw, false), (m - pw, true)] {
+                let r = match guard(|| eval.apply_galois_plain_new(&p, g)) {
+                    Ok(r) => r,
+                    Err(msg) => fail!(
+                        format!("galois_short:apply:panic:{}", panic_class(&msg)),
+                        format!("{:?} N={n} t={t}: apply_galois_plain(valid plaintext with {len} coefficients {}, {g}) returns", e.sch, fv(&co)),
+                        msg
+                    ),
+                };
+                let pref = pgalois(&pad(&co, n), g, t);
+                if r.data().len() > n || r.coeff_count() != r.data().len() || pad(r.data(), n) != pref {
+                    fail!(
+                        "galois_short:apply:polynomial-wrong",
+                        format!("{:?} N={n} t={t}: m(X) -> m(X^{g}) of {} = {}", e.sch, fv(&co), fv(&pref)),
+                        format!("{} coeff_count={}", fv(r.data()), r.coeff_count())
+                    );
+                }
+                tri!(decode_checked(&e, sec, "element", &r, &rotate_matrix(&slots, s as isize, swap), &format!("apply_galois_plain({} ({len} coefficients), {g})", fv(&co))));
+                steps += 2;
+            }
+            pw = pw * 3 % m;
+        }
+    }
+    CaseOut::pass(steps > 0, outcome(&e, sec, 0), steps)
+}
+
+// ---------------------------------------------------------------------------------------------
+// section `polynomial`
+// ---------------------------------------------------------------------------------------------
+
+fn check_polynomial(c: &Case, seed: u64) -> CaseOut {
+    let sec = "polynomial";
+    let e = tri!(setup(c, seed, sec));
+    let (n, t) = (e.n, e.t);
+    let mut steps = 0u64;
+    let alphabet = [0u64, 1, t - 1, t, t + 1, u64::MAX];
+    let lengths: Vec<usize> = if n <= 64 {
+        (0..=n).collect()
+    } else {
+        let mut l = vec![0, 1, 2, 3, n / 2, n - 1, n];
+        l.dedup();
+        l
+    };
+    let one = |vals: &[u64], class: &str, steps: &mut u64| -> Result<(), CaseOut> {
+        let exp: Vec<u64> = vals.iter().map(|&x| x % t).collect();
+        let p = guard(|| e.be.encode_polynomial_new(vals)).map_err(|m| {
+            CaseOut::fail(format!("polynomial:encode:{class}:panic:{}", panic_class(&m)), format!("{:?} N={n} t={t}: encode_polynomial({}) returns", e.sch, fv(vals)), m)
+        })?;
+        if p.data().as_slice() != exp.as_slice() || p.coeff_count() != vals.len() || p.is_ntt_form() {
+            return Err(CaseOut::fail(
+                format!("polynomial:encode:{class}:wrong"),
+                format!("{:?} N={n} t={t}: encode_polynomial({}) = each coefficient mod t = {}", e.sch, fv(vals), fv(&exp)),
+                format!("{} coeff_count={} ({})", fv(p.data()), p.coeff_count(), first_diff(&exp, p.data())),
+            ));
+        }
+        let d = guard(|| {
+            let mut d = vec![5u64; (vals.len() + 3) % (n + 2)];
+            e.be.decode_polynomial(&p, &mut d);
+            (d, e.be.decode_polynomial_new(&p))
+        })
+        .map_err(|m| CaseOut::fail(format!("polynomial:decode:{class}:panic:{}", panic_class(&m)), format!("{:?} N={n} t={t}: decode_polynomial of a {}-coefficient plaintext returns", e.sch, vals.len()), m))?;
+        if d.0 != exp || d.1 != exp {
+            return Err(CaseOut::fail(
+                format!("polynomial:decode:{class}:wrong"),
+                format!("{:?} N={n} t={t}: decode_polynomial(encode_polynomial({})) = {}", e.sch, fv(vals), fv(&exp)),
+                format!("{} / {}", fv(&d.0), fv(&d.1)),
+            ));
+        }
+        *steps += 3;
+        Ok(())
+    };
+    for (li, &len) in lengths.iter().enumerate() {
+        if !c.mine(li) {
+            continue;
+        }
+        let base: Vec<u64> = gen_fill(seed, n, t, 8, len);
+        tri!(one(&base, "generic", &mut steps));
+        let positions: Vec<usize> = if n <= 1024 {
+            (0..len).collect()
+        } else {
+            let mut p: Vec<usize> = [0, 1, len / 2, len.saturating_sub(2), len.saturating_sub(1)].into_iter().filter(|&x| x < len).collect();
+            p.sort();
+            p.dedup();
+            p
+        };
+        for &pos in &positions {
+            for &x in &alphabet {
+                let mut v = base.clone();
+                v[pos] = x;
+                tri!(one(&v, "alphabet", &mut steps));
+            }
+        }
+        for &x in &alphabet {
+            tri!(one(&vec![x; len], "constant", &mut steps));
+        }
+        // with batching: the short plaintext decodes (slot-wise) to the evaluations of the reduced polynomial
+        if e.batching && n <= 1024 && len > 0 {
+            let red: Vec<u64> = base.iter().map(|&x| x % t).collect();
+            let p = tri!(guard(|| e.be.encode_polynomial_new(&base)).map_err(|m| CaseOut::fail(format!("polynomial:encode:generic:panic:{}", panic_class(&m)), "returns", m)));
+            let exp: Vec<u64> = e.roots.iter().map(|&r| peval(&red, r, t)).collect();
+            tri!(decode_checked(&e, sec, "slots-of-short-polynomial", &p, &exp, &format!("encode_polynomial({})", fv(&base))));
+            steps += 1;
+        }
+    }
+    // too long
+    let mut refusals = 0u64;
+    for len in if c.first() { vec![n + 1, 2 * n] } else { vec![] } {
+        match guard(|| e.be.encode_polynomial_new(&vec![1u64; len])) {
+            Err(_) => refusals += 1,
+            Ok(p) => fail!(
+                "polynomial:encode:too-long:accepted",
+                format!("{:?} N={n} t={t}: encode_polynomial of {len} coefficients is refused", e.sch),
+                format!("returned a plaintext with {} coefficients", p.coeff_count())
+            ),
+        }
+        steps += 1;
+    }
+    // without batching the slot API refuses
+    if !e.batching && c.first() {
+        if let Ok(p) = guard(|| e.be.encode_new(&[1, 2])) {
+            fail!("polynomial:no-batching:encode-accepted", format!("{:?} N={n} t={t}: encode refuses (t is not a prime = 1 mod 2N)", e.sch), format!("{}", fv(p.data())));
+        }
+        if let Ok(d) = guard(|| e.be.decode_new(&mk_plain(&[1]))) {
+            fail!("polynomial:no-batching:decode-accepted", format!("{:?} N={n} t={t}: decode refuses (t is not a prime = 1 mod 2N)", e.sch), fv(&d));
+        }
+        refusals += 2;
+        steps += 2;
+    }
+    CaseOut::pass(steps > 0, outcome(&e, sec, refusals), steps)
+}
+
+// ---------------------------------------------------------------------------------------------
+
+pub fn sections(cfg: &RunCfg) -> Vec<Box<dyn AnySection>> {
+    let seed = cfg.seed;
+    let thorough = cfg.thorough();
+    let kmax: u32 = if thorough { 13 } else { 8 };
+    let dl = Duration::from_secs(if thorough { 420 } else { 30 });
+    let bound_nt = format!(
+        "scheme in {{BFV,BGV}} x N = 2^k, k = 1..{kmax} x t in {{smallest prime = 1 mod 2N, largest 20-, 40-bit and third largest 60-bit prime = 1 mod 2N}}"
+    );
+    let mut v: Vec<Box<dyn AnySection>> = vec![];
+
+    v.push(
+        E1::new(
+            "slots",
+            &format!("{bound_nt}: all N unit vectors x {{1,t-1}} (closed form), all N monomials x {{1,t-1}}, 9 generic/extreme vectors (3 beyond N=1024) evaluated naively at psi^(+-3^i)"),
+            specs(1, kmax, &[], parts_alphabet).into_iter(),
+            move |c: &Case| check_slots(c, seed),
+        )
+        .deadline(dl),
+    );
+    v.push(
+        E1::new(
+            "lengths",
+            &format!("{bound_nt}: every input length 0..N of a generic vector (new and destination forms), lengths N+1 and 2N refused"),
+            specs(1, kmax, &[], parts_alphabet).into_iter(),
+            move |c: &Case| check_lengths(c, seed),
+        )
+        .deadline(dl),
+    );
+
+    // exhaustive: all of Z_t^N
+    let mut ex: Vec<Case> = vec![];
+    for (n, t) in [(2usize, 5u64), (2, 13), (4, 17)] {
+        let (q, _) = q_and_t60(n);
+        for scheme in [Scheme::BFV, Scheme::BGV] {
+            let spec = ParamSpec::new(scheme, n, q.clone(), t);
+            if n == 4 {
+                for a in 0..t {
+                    for b in 0..t {
+                        ex.push(Case { spec: spec.clone(), prefix: vec![a, b], part: 0, parts: 1 });
+                    }
+                }
+            } else {
+                ex.push(Case { spec, prefix: vec![], part: 0, parts: 1 });
+            }
+        }
+    }
+    v.push(
+        E1::new(
+            "exhaustive",
+            "scheme in {BFV,BGV} x ALL t^N slot vectors for (N,t) in {(2,5),(2,13),(4,17)}: naive evaluation, round trip, injectivity; sum and product for all ordered pairs ((2,5),(2,13)) resp. every vector x 8 partners ((4,17))",
+            ex.into_iter(),
+            move |c: &Case| check_exhaustive(c, seed),
+        )
+        .deadline(dl),
+    );
+
+    let unit_nmax = if thorough { 64 } else { 32 };
+    v.push(
+        E1::new(
+            "ring",
+            &format!("{bound_nt}: sum and naive negacyclic product of encodings decode slot-wise: all ordered pairs of unit vectors x {{1,t-1}}^2 and generic x unit (N <= {unit_nmax}); all ordered pairs of 9 generic/extreme vectors (N <= 256), upper triangle of 3 beyond"),
+            specs(1, kmax, &[], parts_ring).into_iter(),
+            move |c: &Case| check_ring(c, seed, unit_nmax),
+        )
+        .deadline(dl),
+    );
+    v.push(
+        E1::new(
+            "galois",
+            &format!("{bound_nt}: every step -(N/2-1)..N/2-1 via get_elt_from_step, column swap 2N-1, every odd element 1..2N-1 (= +-3^s), steps +-N/2 and N/2+1, get_elts_all; 3 inputs (5 up to N=64), three call forms; polynomial compared with naive X -> X^g"),
+            specs(1, kmax, &[], parts_alphabet).into_iter(),
+            move |c: &Case| check_galois(c, seed),
+        )
+        .deadline(dl),
+    );
+    v.push(
+        E1::new(
+            "polynomial",
+            &format!("{bound_nt} + t in {{7, 16, 2^59}} (no batching): encode_polynomial / decode_polynomial, values {{0,1,t-1,t,t+1,2^64-1}} at every position (5 positions beyond N=1024) of every length 0..N (7 lengths beyond N=64), constant vectors, lengths N+1 and 2N refused"),
+            specs(1, kmax, &[7, 16, 1 << 59], parts_polynomial).into_iter(),
+            move |c: &Case| check_polynomial(c, seed),
+        )
+        .deadline(dl),
+    );
+    if std::env::var("VERIF_C11_SHORT_PLAIN").map(|x| x != "0").unwrap_or(true) {
+        v.push(
+            E1::new(
+                "galois_short",
+                &format!("OPT-IN, outside the statement: scheme x N = 2^k, k = 1..{} x 4 t: apply_galois_plain of plaintexts with 0..N stored coefficients (6 lengths beyond N=16) x every odd element", kmax.min(8)),
+                specs(1, kmax.min(8), &[], |_| 1).into_iter(),
+                move |c: &Case| check_galois_short(c, seed),
+            )
+            .deadline(dl),
+        );
+    }
+    v
 }
